@@ -883,7 +883,7 @@ impl Prop for C12 {
     fn timeout_secs(&self) -> u64 { 30 }
 
     fn gen(&self, tier: Tier, rng: &mut Rng) -> Vec<Case> {
-        let scale = if tier == Tier::Quick { 1 } else { 25 };
+        let scale = if tier == Tier::Quick { 3 } else { 25 };
         let mut out = vec![];
         // (a) valid programs of 1..4 calls: compile, decode, re-encode; compared with the model
         for n in 0..2400 * scale {
